@@ -431,6 +431,21 @@ def t_load_pairing(world, prefix='C04.i'):
         if whole and pred_ok and map_ok and env_ok and ret_ok: ob3.unsat += 1
         else: ob3.sat += 1; ob3.cex.append({'ob': ob3.oid, 'label': f'load wiring: iterates the whole balances array from slot 0: {whole}; filter closure is the activity test: {pred_ok}; map closure is the per-position closure: {map_ok}; its environment = (remaining accounts, index 0, clock): {env_ok}; collect result returned: {ret_ok}', 'role': 'pairing:wiring', 'model': {}, 'replay': None})
     ob3.need_witness(); obs.append(ob3)
+    # how many accounts each position consumes
+    eng4 = world.engine(merge=True)
+    fc = world.fn(r'(^|::)get_remaining_accounts_per_bank$')
+    bk = eng4.ex.fresh(fc.params[0][1], 'bank')
+    res4 = eng4.run_fn(fc, [bk])
+    ob4 = Ob(prefix + '.count', 'get_remaining_accounts_per_bank: 1 for a fixed-price bank, else by asset tag: 2 (default, SOL: bank + oracle), 3 (Kamino, Drift, Solend: + reserve / market), 4 (staked: + LST mint + SOL pool); unknown tag => error',
+             [fc.name], 'loop-free; all tags and oracle setups'); ob4.paths = len(res4)
+    tag = fsym('bank*', 'Bank', 'config.asset_tag'); setup = fsym('bank*', 'Bank', 'config.oracle_setup')
+    FIXED = ENUMS['OracleSetup']['Fixed']
+    table = z3.If(z3.Or(tag == 0, tag == 1), 2, z3.If(z3.Or(tag == 3, tag == 4, tag == 5), 3, z3.If(tag == 2, 4, -1)))
+    want = z3.If(setup == FIXED, 1, table)
+    for r in returned(res4):
+        if ob4.witness(eng4, r, []) is False: continue
+        ob4.prove(eng4, r, [], z3.If(want == -1, zint(r['ret'].disc) == 1, z3.And(zint(r['ret'].disc) == 0, r['ret'].payload[0][0].e == want)), 'equals the reference table', role='pairing:count')
+    ob4.need_witness(); obs.append(ob4)
     return obs
 
 
